@@ -53,6 +53,7 @@ def run(repo, rep, tier):
     _sinks(repo, rep)
     _routing(repo, rep)
     _quote_paths(repo, rep, tier)
+    _entities(repo, rep)
     _precheck(repo, rep)
 
 
@@ -673,6 +674,26 @@ def _is_number_test(c):
 
 
 # ---------------------------------------------------------------------------
+
+
+def _entities(repo, rep):
+    """the quote entity: char2entity maps a character to a reference to
+    that very character"""
+    f = repo.func("chameleon.utils.char2entity")
+    t = " ".join(src(x) for x in f.node.body)
+    rep.check("cp = ord(c)" in t and
+              "name = htmlentitydefs.codepoint2name.get(cp)" in t and
+              "return '&%s;' % name if name is not None else '&#%d;' % cp"
+              in t, "R02.2", f.qualname, "char2entity(c) is the named "
+              "entity of c's code point if one exists, else the decimal "
+              "reference of that code point", construct="char2entity",
+              where=L.where(f), detail=t)
+    mk = repo.cls("chameleon.utils.Markup")
+    h = mk.methods.get("__html__")
+    rep.check(h is not None and src(h.node.body[-1]) == "return str(self)",
+              "R02.5", mk.qualname, "Markup.__html__ returns its own text "
+              "(the structure opt-out adds nothing)", construct="markup-text",
+              where=L.where(h) if h else "")
 
 
 def _precheck(repo, rep):
